@@ -12,6 +12,7 @@ import (
 	"sort"
 	"strconv"
 	"strings"
+	"syscall"
 	"time"
 
 	"github.com/markusressel/fan2go/internal/configuration"
@@ -37,39 +38,40 @@ type persistVal struct {
 	I    []int    `json:"i,omitempty"` // kind 1: int values
 }
 type persistOp struct {
-	Op string `json:"op"` // save load delete reopen corrupt
-	K  int    `json:"k"`  // 0 = RPM-curve data (bucket fans), 1 = PWM map (bucket fanPwmMap)
-	Id int    `json:"id"`
-	V  *persistVal  `json:"v,omitempty"`
-	G  int    `json:"g,omitempty"` // corrupt: index into persistBlobs
+	Op string      `json:"op"` // save load delete reopen corrupt
+	K  int         `json:"k"`  // 0 = RPM-curve data (bucket fans), 1 = PWM map (bucket fanPwmMap)
+	Id int         `json:"id"`
+	V  *persistVal `json:"v,omitempty"`
+	G  int         `json:"g,omitempty"` // corrupt: index into persistBlobs
 }
 type persistOut struct {
-	R   string `json:"r"` // saved saveerr found notfound deleted reopened corrupted error
-	V   *persistVal  `json:"v,omitempty"`
-	Err string `json:"err,omitempty"` // diagnostic only, never compared
+	R   string      `json:"r"` // saved saveerr found notfound deleted reopened corrupted error
+	V   *persistVal `json:"v,omitempty"`
+	Err string      `json:"err,omitempty"` // diagnostic only, never compared
 }
 type persistIn struct {
-	Mode string `json:"mode"` // "seq" | "kill"
-	Ops  []persistOp  `json:"ops"`
-	Frac int    `json:"frac,omitempty"` // kill: delay as a fraction (per mille) of the calibrated run time
-	Disk bool   `json:"disk,omitempty"` // kill: db on the work dir's file system instead of tmpfs
+	Mode   string      `json:"mode"` // "seq" | "kill" (timed SIGKILL) | "killat" (worker dies right after its KillAt-th committed transaction)
+	KillAt int         `json:"killat,omitempty"`
+	Ops    []persistOp `json:"ops"`
+	Frac   int         `json:"frac,omitempty"` // kill: delay as a fraction (per mille) of the calibrated run time
+	Disk   bool        `json:"disk,omitempty"` // kill: db on the work dir's file system instead of tmpfs
 }
 type persistObs struct {
 	Outs     []persistOut `json:"outs"`
-	Started  int    `json:"started,omitempty"`
-	Done     int    `json:"done,omitempty"`
-	Killed   bool   `json:"killed,omitempty"`
+	Started  int          `json:"started,omitempty"`
+	Done     int          `json:"done,omitempty"`
+	Killed   bool         `json:"killed,omitempty"`
 	Readback []persistOut `json:"readback,omitempty"`
 	Raw      [][]int      `json:"raw"` // ids present per bucket afterwards (null = no such bucket), read with bbolt directly
 }
 
 // bytes written behind the wrapper's back, with what encoding/json makes of them per kind
 type persistBlob struct {
-	raw        string
-	dOK        bool
-	dVal       persistVal
-	mOK        bool
-	mVal       persistVal
+	raw  string
+	dOK  bool
+	dVal persistVal
+	mOK  bool
+	mVal persistVal
 }
 
 func persistDV(nilmap bool, kv ...float64) persistVal {
@@ -575,8 +577,8 @@ func persistRunSeq(ctx *Ctx, in persistIn) (persistObs, string) {
 }
 
 // ---- kill cases ----
-func persistRunSub(dir string, mode string, kill time.Duration) (killed bool, elapsed time.Duration) {
-	cmd := exec.Command(os.Args[0], mode, "--work", dir, "--out", os.DevNull, "dir="+dir)
+func persistRunSub(dir string, mode string, kill time.Duration, extra ...string) (killed bool, elapsed time.Duration) {
+	cmd := exec.Command(os.Args[0], append([]string{mode, "--work", dir, "--out", os.DevNull, "dir=" + dir}, extra...)...)
 	t0 := time.Now()
 	if err := cmd.Start(); err != nil {
 		panic(err)
@@ -594,6 +596,10 @@ func persistRunSub(dir string, mode string, kill time.Duration) (killed bool, el
 		}
 	}
 	if err := cmd.Wait(); err != nil {
+		var ee *exec.ExitError
+		if errors.As(err, &ee) && !ee.Exited() && len(extra) > 0 {
+			return true, time.Since(t0) // the worker killed itself at its crash point
+		}
 		panic(mode + ": " + err.Error())
 	}
 	return false, time.Since(t0)
@@ -609,10 +615,18 @@ func persistRunKill(ctx *Ctx, in persistIn, cal *persistKillCal) (persistObs, st
 		panic(err)
 	}
 	// delay: from a bit before the worker's first operation to a bit after its last
+	if cal == nil {
+		cal = &persistKillCal{}
+	}
 	lo := cal.start * 8 / 10
 	span := cal.full - lo
 	delay := lo + time.Duration(int64(span)*int64(in.Frac)/1250) // sequences vary in length: aim at the first 80% of the calibrated run
-	killed, _ := persistRunSub(dir, "persist-worker", delay)
+	var killed bool
+	if in.Mode == "killat" {
+		killed, _ = persistRunSub(dir, "persist-worker", -1, "killat="+itoa(in.KillAt))
+	} else {
+		killed, _ = persistRunSub(dir, "persist-worker", delay)
+	}
 	var obs persistObs
 	obs.Killed = killed
 	if jb, err := os.ReadFile(filepath.Join(dir, "journal")); err == nil {
@@ -637,6 +651,9 @@ func persistRunKill(ctx *Ctx, in persistIn, cal *persistKillCal) (persistObs, st
 	loads := persistLoadAllOps()
 	inflight := "None"
 	tags := []string{"kill"}
+	if in.Mode == "killat" {
+		tags = []string{"killat"}
+	}
 	switch {
 	case obs.Started == obs.Done+1:
 		inflight = "(Some " + persistCBop(in.Ops[obs.Done]) + ")"
@@ -693,6 +710,18 @@ func persistWorker(ctx *Ctx) {
 	if err := env.p.Init(); err != nil {
 		panic(err)
 	}
+	if k := ctx.Param("killat", 0); k > 0 {
+		n := 0
+		persistence.VerifAfterCommit = func(err error) {
+			if err == nil {
+				n++
+			}
+			if n == k {
+				_ = syscall.Kill(os.Getpid(), syscall.SIGKILL)
+				select {}
+			}
+		}
+	}
 	for _, o := range ops {
 		_, _ = j.Write([]byte("s\n"))
 		env.exec(o)
@@ -735,6 +764,42 @@ func persistGenKillOps(rng *Rng, n int) []persistOp {
 			o.V.Nil = false
 		}
 		ops = append(ops, o)
+	}
+	return ops
+}
+
+// operation sequence for the deterministic crash points: sequence 0 is systematic, later ones seeded
+func persistGenKillAtOps(rng *Rng, si int) []persistOp {
+	dval := func() *persistVal { v := persistGenDataVal(rng, false); v.Nil = false; return v }
+	mval := func() *persistVal { v := persistGenMapVal(rng); return v }
+	sv := func(k, id int) persistOp {
+		if k == 0 {
+			return persistOp{Op: "save", K: 0, Id: id, V: dval()}
+		}
+		return persistOp{Op: "save", K: 1, Id: id, V: mval()}
+	}
+	if si == 0 {
+		return []persistOp{
+			sv(0, 0), sv(1, 0), sv(0, 1), sv(1, 1), // first saves
+			sv(0, 0), sv(1, 1), // overwrites
+			{Op: "load", K: 0, Id: 0},
+			{Op: "delete", K: 0, Id: 1}, {Op: "delete", K: 0, Id: 1}, {Op: "delete", K: 1, Id: 2}, // present, absent, never there
+			sv(0, 1), sv(1, 0), sv(1, 0), sv(0, 0), // save after delete, overwrite twice
+			{Op: "delete", K: 1, Id: 1}, sv(1, 2), sv(0, 2), sv(0, 2),
+		}
+	}
+	var ops []persistOp
+	n := rng.Range(10, 16)
+	for len(ops) < n {
+		k, id := rng.Intn(2), rng.Intn(3)
+		switch x := rng.Intn(10); {
+		case x < 7:
+			ops = append(ops, sv(k, id))
+		case x < 9:
+			ops = append(ops, persistOp{Op: "delete", K: k, Id: id})
+		default:
+			ops = append(ops, persistOp{Op: "load", K: k, Id: id})
+		}
 	}
 	return ops
 }
@@ -786,8 +851,14 @@ func init() {
 			return c
 		}
 		var calDisk *persistKillCal
+		lastKilled := false
 		emit := func(in persistIn, tags ...string) {
 			switch in.Mode {
+			case "killat":
+				obs, coq, t := persistRunKill(ctx, in, nil)
+				lastKilled = obs.Killed
+				ctx.Emit(Record{In: in, Obs: obs, Coq: coq, Tags: append(tags, t...), NonTrv: obs.Killed && obs.Done >= 2,
+					Key: coq + "/" + itoa(obs.Done)})
 			case "kill":
 				c := &cal
 				if in.Disk {
@@ -863,6 +934,18 @@ func init() {
 				ops = append(ops, persistOp{Op: "corrupt", K: k, Id: 1, G: g}, sv)
 				ops = append(ops, persistLoadAllOps()...)
 				emit(persistIn{Mode: "seq", Ops: ops}, "blob-table")
+			}
+		}
+		// deterministic crash points: the worker dies right after its k-th committed transaction, for every k
+		// (first saves, overwrites, deletes of present and absent entries, loads, both kinds, several fans)
+		arng := NewRng(ctx.Seed, "persist-killat")
+		for si := 0; si < ctx.Param("killatseqs", 2); si++ {
+			ops := persistGenKillAtOps(arng, si)
+			for k := 1; k <= 4*len(ops)+4; k++ {
+				emit(persistIn{Mode: "killat", Ops: ops, KillAt: k}, "killat-seq"+itoa(si))
+				if !lastKilled {
+					break // the worker ran to completion: no k-th transaction
+				}
 			}
 		}
 		kills := ctx.Param("kills", 30)
